@@ -232,6 +232,9 @@ DIRECTED = [
     ('deep-attribute-chain', 'x = a' + '.b' * 300 + '\n'),
     ('none-subscript', 'v: None[int] = 1\n'),
     ('function-attribute-type', 'x: len.y = 1\n'),
+    ('actual-without-name', '@__actual__()\ndef f() -> None: ...\n'),
+    ('self-import', 'from {self} import a\n'),
+    ('dotted-type-undefined-owner', 'x: foo.Bar = 1\n'),
     ('empty', ''),
     ('blank', ' \n'),
     ('comment-only', '# nothing\n'),
@@ -243,9 +246,10 @@ def directed(ctx: Ctx) -> None:
     import tsession
     os.makedirs('c07dir', exist_ok=True)
     open('c07dir/__init__.py', 'w').close()
-    for k, (tag, src) in enumerate(DIRECTED):
+    for k, (tag, src0) in enumerate(DIRECTED):
         for where in ('memory', 'disk'):
             name = 'c07dir.d%d' % k if where == 'disk' else 'dir_mod'
+            src = src0.replace('{self}', name)
             if where == 'disk':
                 with open('c07dir/d%d.py' % k, 'w') as f:
                     f.write(src)
@@ -256,6 +260,7 @@ def directed(ctx: Ctx) -> None:
                 ctx.violation('%s:%s@%s' % (res[0], res[1], res[2]), 'a non-application exception escapes the pipeline: %s raised in %s (%s input, %s)' % (res[1], res[2] or '?', tag, where),
                               dict(input=dict(source=src, path=where), impl_result=list(res)))
         # one session: the failing input, then a valid re-submission of the same module
+        src = src0.replace('{self}', 'seq_mod')
         sources = {'seq_mod': src}
         sess = tsession.Session(sources)
         first = classify(lambda: sess.transpile('seq_mod'))
@@ -279,11 +284,28 @@ def matrix(ctx: Ctx) -> None:
     import illtyped
     pairs = [(c, sy) for c in illtyped.CTX for sy in illtyped.SYMS]
     if ctx.tier == 'quick' and not ctx.broken:
-        pairs = ctx.rnd.sample(pairs, 260)
+        pairs = ctx.rnd.sample(pairs, 900)
     pairs = illtyped.PINNED + pairs
+    sess, live, used = None, {}, 0
     for c, sy in pairs:
         src = illtyped.program(c, sy)
-        res = classify(lambda: tsession.Session({'mx_mod': src}).transpile('mx_mod'))
+        # one application serves forty programs in a row (the way the interactive loop re-submits its main module): the
+        # library modules are loaded once; an escaping exception is looked at again in a fresh application
+        if sess is None or used >= 40:
+            live = {'mx_mod': ''}
+            sess, used = tsession.Session(live), 0
+        live['mx_mod'] = src
+        used += 1
+
+        def resubmit():
+            sess.unload('mx_mod')
+            return sess.transpile('mx_mod')
+        res = classify(resubmit)
+        if res[0] in ('leak', 'timeout'):
+            fresh = classify(lambda: tsession.Session({'mx_mod': src}).transpile('mx_mod'))
+            if fresh[0] in ('leak', 'timeout'):
+                res = fresh
+            sess = None
         ctx.case(('matrix', c, sy), res[0] != 'ok')
         ctx.count('matrix:%s' % res[0])
         if res[0] in ('leak', 'timeout'):
@@ -292,7 +314,7 @@ def matrix(ctx: Ctx) -> None:
 
 
 IT_VALID = [('z: int = 9', 'int z = 9;'), ('def ok(a: int) -> int:\n\treturn a + 1', 'return a + 1;'), ('class P:\n\tn: int = 3', 'class P')]
-IT_FAILING = ['a = (1', 'a: int = b', 'def f(:', 'x: len.y = 1', ')', '"', "'" * 3, 'v: None[int] = 1', 'class G([T]):\n\tpass', 'def f(a: int) -> int:\n\treturn a + missing', 'if True:\n        a = 1\n    b = 2', 'return 1']
+IT_FAILING = ['from __main__ import a', '@__actual__()\ndef f() -> None: ...', 'x: foo.Bar = 1', 'a = (1', 'a: int = b', 'def f(:', 'x: len.y = 1', ')', '"', "'" * 3, 'v: None[int] = 1', 'class G([T]):\n\tpass', 'def f(a: int) -> int:\n\treturn a + missing', 'if True:\n        a = 1\n    b = 2', 'return 1']
 
 
 def interactive_session(seq):
